@@ -555,8 +555,8 @@ class C09(Prop):
             "directive arguments) over literals and data variables of every value kind, bounded loops; (b) every built-in "
             "x receivers (empty, ASCII, multi-byte, invalid UTF-8, boundary integers, nested arrays/objects) x argument "
             "kind tuples of arity <= 2 (all) and 3 (sampled) x boundary counts {MinInt64, -len-1, -len, -1, 0, 1, len-1, "
-            "len, len+1, 1000}; (c) data maps with nil pointers, pointers, structs, all integer widths, nested "
-            "unsupported values. Oversized repeat/decimal counts are a recorded known finding (one witness each run). "
+            "len, len+1, 1000, 67108865, 4611686018427387904, 9223372036854775807}; (c) data maps with nil pointers, pointers, structs, all integer widths, nested "
+            "unsupported values. Boundary counts include 2^26+1, 2^62 and MaxInt64 (oversized repeat/decimal counts). "
             "Non-trivial: the program contains at least one operator, call or directive.")
     explanation = ("Correspondence: render model = implementation (the model marks every Go panic site with an explicit "
                    "Panic outcome). Oracle: the implementation returned output or an error, never panicked or crashed; "
@@ -625,7 +625,8 @@ class C09(Prop):
 
     def boundary(self, ty, recv):
         n = {"str": 3, "arr": 3}.get(ty, 3)
-        return ["-9223372036854775808", str(-n - 1), str(-n), "-1", "0", "1", str(n - 1), str(n), str(n + 1), "1000"]
+        return ["-9223372036854775808", str(-n - 1), str(-n), "-1", "0", "1", str(n - 1), str(n), str(n + 1), "1000",
+                "67108865", "4611686018427387904", "9223372036854775807"]
 
     def generate(self, rng, tier):
         data = hx(hostile_data())
@@ -650,8 +651,10 @@ class C09(Prop):
                     for b in self.boundary(ty, recv):
                         srcs.append("{{ %s.%s(%s) }}" % (recv, fn, b))
                         srcs.append("{{ %s.%s(%s, %s) }}" % (recv, fn, rng.choice(['"."', "1", "0"]), b))
-        # the recorded known finding, one witness per run
+        # regression corpus (fixed: e92c1d0)
         srcs.append('{{ "ab".repeat(9223372036854775807) }}')
+        srcs.append('{{ 1.decimal(".", 9223372036854775807) }}')
+        srcs.append('{{ "".repeat(9223372036854775807) }}')
         lines = ["C09:%d\trender\t%s\t%s" % (i, hx(s), data) for i, s in enumerate(srcs)]
         # data-binding faults
         bad = ["(chan)", "(func)", "(complex)", "(slice (int 1) (chan))", "(map (%s (func)))" % hx("k"), "(struct (F (chan)))",
